@@ -12,8 +12,11 @@ import (
 	"bytes"
 	"crypto/tls"
 	"fmt"
+	"net"
 	"strconv"
 	"strings"
+
+	"github.com/google/martian/v3/trafficshape"
 )
 
 // tlsView is what both ends can read off a session.
@@ -89,4 +92,16 @@ func listenerTLS(kind string) bool {
 		return true
 	}
 	return false
+}
+
+// connView: the TLS session of a connection handed out by the proxy (unwrapping a shaped connection).
+func connView(c net.Conn) tlsView {
+	if ts, ok := c.(*trafficshape.Conn); ok {
+		c = ts.GetWrappedConn()
+	}
+	if tc, ok := c.(*tls.Conn); ok {
+		cs := tc.ConnectionState()
+		return viewOf(&cs)
+	}
+	return tlsView{}
 }
